@@ -147,6 +147,70 @@ fn history(rng: &mut Rng, initial: usize, max: usize, with_panics: bool, log: &m
     verdict.map(|_| (races, quiet_points, panics))
 }
 
+/// Tight hand-overs: the only free worker is just finishing a job when the next one is submitted,
+/// with the submission instant swept across the worker's way back to the queue (a wake-up lost
+/// there leaves a queued job beside an idle worker).  Returns hand-overs done, or Err.
+fn handovers(rng: &mut Rng, initial: usize, max: usize, pinned: usize, until: Instant) -> Result<usize, String> {
+    let mut pool = Pool::new(initial, max);
+    let started = Arc::new(AtomicUsize::new(0));
+    let hold = Arc::new(AtomicBool::new(false));
+    // `pinned` long-lived jobs occupy all workers but one
+    for _ in 0..pinned {
+        let (s2, h2) = (started.clone(), hold.clone());
+        pool.execute(move || {
+            s2.fetch_add(1, Ordering::SeqCst);
+            while !h2.load(Ordering::Relaxed) {
+                std::thread::sleep(Duration::from_micros(200));
+            }
+        });
+    }
+    if !wait_until(|| started.load(Ordering::SeqCst) == pinned, Duration::from_secs(20)) {
+        hold.store(true, Ordering::SeqCst);
+        return Err(format!("only {} of {} long-lived jobs started (initial {}, max {})", started.load(Ordering::SeqCst), pinned, initial, max));
+    }
+    let mut n = 0usize;
+    let mut verdict = Ok(());
+    let mut prev_release: Option<Arc<AtomicBool>> = None;
+    while Instant::now() < until {
+        let release = Arc::new(AtomicBool::new(false));
+        let begun = Arc::new(AtomicBool::new(false));
+        let (r2, b2) = (release.clone(), begun.clone());
+        // end the previous short job and submit the next one `spins` later
+        if let Some(p) = prev_release.take() {
+            p.store(true, Ordering::SeqCst);
+            for _ in 0..rng.below(if n % 4 == 0 { 3000 } else { 300 }) {
+                std::hint::spin_loop();
+            }
+        }
+        pool.execute(move || {
+            b2.store(true, Ordering::SeqCst);
+            while !r2.load(Ordering::Relaxed) {
+                std::hint::spin_loop();
+            }
+        });
+        if !wait_until(|| begun.load(Ordering::SeqCst), Duration::from_secs(10)) && !wait_until(|| begun.load(Ordering::SeqCst), Duration::from_secs(10)) {
+            verdict = Err(format!(
+                "hand-over #{}: a job queued while the only free worker was finishing the previous one has not started 20 s later, with {} of max {} in service; {} worker threads, busy counter {}",
+                n + 1,
+                pinned,
+                max,
+                pool.workers(),
+                pool.num_busy()
+            ));
+            release.store(true, Ordering::SeqCst);
+            break;
+        }
+        prev_release = Some(release);
+        n += 1;
+    }
+    if let Some(p) = prev_release.take() {
+        p.store(true, Ordering::SeqCst);
+    }
+    hold.store(true, Ordering::SeqCst);
+    let _ = std::panic::catch_unwind(std::panic::AssertUnwindSafe(move || drop(pool)));
+    verdict.map(|_| n)
+}
+
 pub fn run(ctx: &Ctx) {
     let budget = Duration::from_secs(ctx.tier.pick(5, 180));
     let nthreads = 4;
@@ -163,7 +227,7 @@ pub fn run(ctx: &Ctx) {
         let mut rng = Rng::lane(ctx.seed, 5200 + w as u64);
         let mut n = 0usize;
         while t0.elapsed() < budget && ctx.violations() < 3 {
-            let (initial, max) = *rng.pick(&[(1usize, 4usize), (1, 2), (1, 3), (2, 4), (2, 2), (2, 3)]);
+            let (initial, max) = *rng.pick(&[(1usize, 4usize), (1, 2), (1, 3), (2, 4), (2, 2), (2, 3), (1, 1)]);
             let mut log = Vec::new();
             let seed_state = (w, n);
             let with_panics = n % 3 == 2;
@@ -191,4 +255,17 @@ pub fn run(ctx: &Ctx) {
     });
     let _ = std::panic::take_hook();
     std::panic::set_hook(prev_hook);
+    // second half: tight hand-overs, one pool per lane
+    let until = Instant::now() + Duration::from_secs(ctx.tier.pick(5, 120));
+    par(nthreads, |w| {
+        let mut rng = Rng::lane(ctx.seed, 5300 + w as u64);
+        let (initial, max, pinned) = [(1usize, 1usize, 0usize), (1, 3, 2), (2, 2, 1), (1, 2, 1)][w % 4];
+        match handovers(&mut rng, initial, max, pinned, until) {
+            Ok(n) => {
+                ctx.case(Some(hash_of(&("handover", initial, max, pinned, w))));
+                ctx.count("stress_tight_handovers", n as u64);
+            }
+            Err(m) => ctx.violation("c14:stress:job-stranded-at-hand-over", json!({"engine": "c14-stress", "initial": initial, "max": max, "long_lived_jobs": pinned, "message": m})),
+        }
+    });
 }
